@@ -2,6 +2,7 @@
 import json
 import os
 import re
+import sys
 import threading
 
 from lib import flows
@@ -9,12 +10,16 @@ from lib.units import SeqUnit, McUnit, TraceUnit, Unit, Inconclusive, run_h, spl
 
 
 class _Sub:
-    """per-thread stand-in for Ctx (the counters are merged afterwards)"""
+    """Per-thread stand-in for Ctx: read-only attributes come from the real one, everything a unit adds (violations,
+    counters, samples) is collected here and merged when the threads have joined."""
 
-    def __init__(self, ctx):
-        self.out, self.thorough, self.spec = ctx.out, ctx.thorough, ctx.spec
-        self.states = self.transitions = 0
-        self.extra = {}
+    def __init__(self, ctx, tag):
+        self._p, self._tag = ctx, re.sub(r"[^A-Za-z0-9]", "_", tag)
+        self.violations, self.inconclusive, self.samples, self.extra = [], [], [], {}
+        self.states = self.transitions = self.replayed = self.validated = 0
+
+    def __getattr__(self, k):
+        return getattr(self._p, k)
 
     def add_tlc(self, r):
         self.states += r.distinct
@@ -23,9 +28,36 @@ class _Sub:
     def bump(self, key, n=1):
         self.extra[key] = self.extra.get(key, 0) + n
 
+    def sample(self, s):
+        self.samples.append(s)
+
+    def violation(self, unit, sig, what, replay_obj):
+        path = os.path.join(self._p.out, "violation_%s_%d.json" % (self._tag, len(self.violations) + 1))
+        replay_obj = dict(replay_obj)
+        replay_obj.update({"property": self._p.pid, "unit": unit, "sig": sig, "what": what})
+        with open(path, "w") as fh:
+            json.dump(replay_obj, fh, indent=1)
+        self.violations.append({"unit": unit, "sig": sig, "what": what, "replay": path})
+
+    def merge(self):
+        p = self._p
+        p.states += self.states
+        p.transitions += self.transitions
+        p.replayed += self.replayed
+        p.validated += self.validated
+        p.inconclusive += self.inconclusive
+        for v in self.violations:
+            if not any(x["sig"] == v["sig"] for x in p.violations):
+                p.violations.append(v)
+        for s in self.samples:
+            p.sample(s)
+        for k, n in self.extra.items():
+            p.bump(k, n)
+
 
 class Parallel(Unit):
-    """Runs small independent TLC units side by side (each JVM start costs ~1.5 s)."""
+    """Runs independent units side by side (TLC runs: each JVM start costs ~1.5 s; quiescent-point replays: one harness
+    process each, quiescence is a per-process notion)."""
 
     def __init__(self, name, subs):
         self.name, self.subs, self.info = name, subs, {}
@@ -34,31 +66,37 @@ class Parallel(Unit):
         return json.dumps(self.info)
 
     def run(self, ctx):
-        errs = []
+        errs, proxies = [], []
 
-        subs = []
-
-        def one(u):
-            sub = _Sub(ctx)
-            subs.append(sub)
+        def one(u, sub):
             try:
                 u.run(sub)
-                self.info[u.name] = [u.info.get("status"), u.info.get("violated"), u.info.get("distinct"), u.info.get("wall")]
             except Inconclusive as e:
                 errs.append("%s: %s" % (u.name, e))
+            except Exception as e:  # noqa: BLE001 - a crashed sub-unit must not be mistaken for a pass
+                errs.append("%s: exception %r" % (u.name, e))
+            inf = getattr(u, "info", {}) or {}
+            self.info[u.name] = [inf.get("status"), inf.get("violated"), inf.get("distinct"), inf.get("wall")] if "status" in inf else inf
 
-        ths = [threading.Thread(target=one, args=(u,)) for u in self.subs]
+        ths = []
+        for u in self.subs:
+            sub = _Sub(ctx, u.name)
+            proxies.append(sub)
+            ths.append(threading.Thread(target=one, args=(u, sub)))
         for t in ths:
             t.start()
         for t in ths:
             t.join()
-        for sub in subs:
-            ctx.states += sub.states
-            ctx.transitions += sub.transitions
-            for k, n in sub.extra.items():
-                ctx.bump(k, n)
+        for sub in proxies:
+            sub.merge()
         if errs:
             raise Inconclusive("; ".join(errs))
+
+    def replay(self, ctx, data):
+        for u in self.subs:
+            if u.name == data.get("unit"):
+                return u.replay(ctx, data)
+        return 2
 
 
 class TimedTrace(TraceUnit):
@@ -156,7 +194,7 @@ class ConfirmedSeqUnit(SeqUnit):
             for _ in range(3):
                 if again:
                     break
-                pth = os.path.join(ctx.out, "confirm_path.json")
+                pth = os.path.join(ctx.out, "confirm_path_%s.json" % self.sut)
                 with open(pth, "w") as fh:
                     json.dump(mm, fh)
                 again = run_h(ctx, ["path", self.sut, pth], timeout=120).returncode != 0
@@ -207,12 +245,16 @@ def units(ctx):
         # pattern 1: the API-level models of Queue (Poll on harness threads) and TaskExecutor (callbacks are gates) replayed
         # on the real objects at quiescent points: every order of Add / Poll(wait) / Cancel / Shutdown(flags), resp.
         # ExecuteAt(id, due | hours ahead) / Cancel(id) / callback return / Shutdown(flags) with 1-2 workers
-        ConfirmedSeqUnit("timed", "TimedQueue", traces=(30, 25), thorough_traces=(300, 30), walks=(40, 15), thorough_walks=(300, 25)),
-        ConfirmedSeqUnit("timed", "TaskExec", traces=(30, 25), thorough_traces=(300, 30), walks=(40, 15), thorough_walks=(300, 25)),
+        Parallel("TimedQueue+TaskExec", [
+            ConfirmedSeqUnit("timed", "TimedQueue", traces=(30, 25), thorough_traces=(300, 30), walks=(40, 15), thorough_walks=(300, 25)),
+            ConfirmedSeqUnit("timed", "TaskExec", traces=(30, 25), thorough_traces=(300, 30), walks=(40, 15), thorough_walks=(300, 25)),
+        ]),
         # pattern 3: forced schedules (TLC's counterexamples through the verif yield points and callback gates) + free-running
         # scenarios of the real Executor / TaskExecutor with monotonic time stamps, validated by TLC (now' = ts)
         TimedTrace("timed", "Timed", "timeddrive", args=["-traces", 36, "-reps", 8], thorough_args=["-traces", 200, "-reps", 12], sut="Timed"),
     ]
+    if "--replay" in sys.argv:      # check.py looks a violation's unit up by name among the top-level units
+        us = [x for u in us for x in (u.subs if isinstance(u, Parallel) else [u])]
     if ctx.thorough:
         us += [
             McUnit("timed", "TimedImpl", "thorough", name="TimedImpl:thorough", timeout=1800),
